@@ -192,6 +192,7 @@ class Call(Ev):
     def __init__(self, name, callees, args, node, func, stack, inlined, recv=None):
         super().__init__(node, func, stack)
         self.name, self.callees, self.args, self.inlined, self.recv = name, callees, args, inlined, recv
+        self.ret = None
 
     def __repr__(self):
         return f"call {self.name}{'*' if self.inlined else ''} @{self.loc}"
@@ -456,7 +457,8 @@ class Interp:
         elif callee.name == "__init__" and callee.cls:
             recv = Obj(f"new{next(self._fresh)}:{callee.cls}", callee.cls)
             args["self"] = recv
-        st.trace.append(Call(ast.unparse(call.func), [callee.qualname], args, call, fr.func, fr.stack, True, recv))
+        cev = Call(ast.unparse(call.func), [callee.qualname], args, call, fr.func, fr.stack, True, recv)
+        st.trace.append(cev)
         saved_env = st.env
         nfr = Frame(callee, self.types.ftypes(callee), fr.stack + ((fr.func.loc(call), callee.qualname),))
         env = {}
@@ -880,7 +882,14 @@ class Interp:
             cur = st.env.get(recv_expr.id)
             st.trace.append(Mut(None, "$" + recv_expr.id, cur, op, args, node, fr.func, fr.stack, argnodes))
             if isinstance(cur, ListV) and cur.fresh and op in ("append", "add") and len(args) == 1:
-                st.env[recv_expr.id] = ListV(cur.items + [args[0]], True, cur.kind)
+                items = cur.items + ([args[0]] if not (cur.kind == "set" and any(_same(args[0], x) for x in cur.items)) else [])
+                st.env[recv_expr.id] = ListV(items, True, cur.kind)
+            elif isinstance(cur, ListV) and cur.fresh and op in ("extend", "update") and len(args) == 1 and isinstance(args[0], ListV):
+                items = list(cur.items)
+                for x in args[0].items:
+                    if not (cur.kind == "set" and any(_same(x, y) for y in items)):
+                        items.append(x)
+                st.env[recv_expr.id] = ListV(items, True, cur.kind)
             elif isinstance(cur, ListV):
                 st.env[recv_expr.id] = Unk(f"{recv_expr.id}~{next(self._fresh)}", fr.ft.lookup(recv_expr.id, fr.func.node))
             for k in [k for k in st.memo if k[0] == fr.uid and _mentions(k[1], recv_expr.id)]:
@@ -1125,8 +1134,10 @@ class Interp:
         recv = None
         if isinstance(f, ast.Attribute):
             recv = self.eval(f.value, st, fr, effects)
+        cev = None
         if effects or callees:
-            st.trace.append(Call(ast.unparse(f), [c.qualname for c in callees], argvals, e, fr.func, fr.stack, False, recv))
+            cev = Call(ast.unparse(f), [c.qualname for c in callees], argvals, e, fr.func, fr.stack, False, recv)
+            st.trace.append(cev)
         if callees and self.havoc_on_call:
             # opaque in-package call: forget what it may write
             attrs = set()
@@ -1140,8 +1151,14 @@ class Interp:
                     del st.heap[hk]
                 for mk in [mk for mk in st.memo if any(a in mk[1] for a in attrs)]:
                     del st.memo[mk]
-            if len(callees) == 1 and callees[0].name == "__init__" and callees[0].cls:
-                return Obj(f"new{next(self._fresh)}:{callees[0].cls}", callees[0].cls)
+        ret = self._call_result(e, f, fname, callees, fr)
+        if cev is not None:
+            cev.ret = ret
+        return ret
+
+    def _call_result(self, e, f, fname, callees, fr):
+        if callees and len(callees) == 1 and callees[0].name == "__init__" and callees[0].cls:
+            return Obj(f"new{next(self._fresh)}:{callees[0].cls}", callees[0].cls)
         if fname in self.repo.classes and self.repo.classes[fname].enum_members is not None:
             return self.full_enum(fname)
         if fname in self.repo.classes:
